@@ -3,6 +3,7 @@ package main
 import (
 	"fmt"
 	"go/token"
+	"go/types"
 	"sort"
 	"strings"
 
@@ -54,7 +55,9 @@ func runC12(p *Prog, r *Report) {
 	r.MinInstances["C12.R2"] = 6
 	r.MinInstances["C12.R3"] = 5
 	r.MinInstances["C12.R4"] = 4
+	r.MinInstances["C12.R6"] = 1
 	c12R5(p, r)
+	c12R6(p, r)
 	fn := p.Func("", puT, "UnwrapInPlace")
 	ctor := p.Func("", "", "NewPhaseUnwrapper")
 	if fn == nil || ctor == nil {
@@ -105,13 +108,30 @@ func runC12(p *Prog, r *Report) {
 				}
 				// data[i] = h(...)
 				var outSt *ssa.Store
-				for _, ref := range *call.Referrers() {
-					if st, ok := ref.(*ssa.Store); ok && st.Val == ssa.Value(call) {
-						if ia, ok := st.Addr.(*ssa.IndexAddr); ok && ia.Index == l.Idx {
-							outSt = st
+				// the call's result, possibly added to the reduced input and converted
+				var follow func(v ssa.Value, depth int)
+				follow = func(v ssa.Value, depth int) {
+					if depth > 3 || v.Referrers() == nil {
+						return
+					}
+					for _, ref := range *v.Referrers() {
+						switch x := ref.(type) {
+						case *ssa.Store:
+							if ia, ok := x.Addr.(*ssa.IndexAddr); ok && x.Val == v && ia.Index == l.Idx {
+								outSt = x
+							}
+						case *ssa.Convert:
+							follow(x, depth+1)
+						case *ssa.ChangeType:
+							follow(x, depth+1)
+						case *ssa.BinOp:
+							if x.Op == token.ADD {
+								follow(x, depth+1)
+							}
 						}
 					}
 				}
+				follow(call, 0)
 				if outSt == nil || !l.EveryIteration(outSt.Block()) {
 					return
 				}
@@ -120,6 +140,14 @@ func runC12(p *Prog, r *Report) {
 				R.call = call
 				R.outStore = outSt
 			})
+		}
+	}
+	if main != nil && disabled == main {
+		disabled = nil
+		for _, l := range loops {
+			if _, hasShift := classify(fn, l); hasShift && l != main {
+				disabled = l
+			}
 		}
 	}
 	if disabled == nil {
@@ -262,42 +290,25 @@ func runC12(p *Prog, r *Report) {
 			lastStore = st
 		}
 	})
-	r.Check(lastStore != nil && R.every(lastStore.Block()), "C12.R1", "the last-value field is refreshed on every sample", p.Pos(fn.Pos()), "unconditional store in the loop body", "the previous-sample state is not updated on every sample")
+	// several stores, one on each way through the sample's code, do as well as one unconditional store
+	refreshed := lastStore != nil && R.every(lastStore.Block())
+	if lastStore != nil && !refreshed {
+		isLast := func(in ssa.Instruction) bool {
+			st, ok := in.(*ssa.Store)
+			return ok && puField(st.Addr) == "lastVal" && st.Val == lastStore.Val
+		}
+		if R.body != fn {
+			refreshed = len(ReachAvoiding(R.body, nil, isLast, isReturn)) == 0
+		} else if main != nil && len(main.Body.Instrs) > 0 {
+			hdr := main.Header
+			refreshed = len(ReachAvoiding(fn, main.Body.Instrs[0], isLast, func(in ssa.Instruction) bool { return in.Block() == hdr && in == hdr.Instrs[0] })) == 0 && !isLast(main.Body.Instrs[0]) || isLast(main.Body.Instrs[0])
+		}
+	}
+	r.Check(refreshed, "C12.R1", "the last-value field is refreshed on every sample", p.Pos(fn.Pos()), "unconditional store in the loop body", "the previous-sample state is not updated on every sample")
 
 	// ---- R2: output = v + offset; v = uint16(raw & signMask) >> drop
 	var outStore *ssa.Store
 	var outVal ssa.Value
-	if R.body == fn {
-		Instrs(fn, func(in ssa.Instruction) {
-			if st, ok := in.(*ssa.Store); ok && main.Contains(st.Block()) {
-				if ia, ok := st.Addr.(*ssa.IndexAddr); ok && ia.Index == main.Idx {
-					outStore = st
-					outVal = st.Val
-				}
-			}
-		})
-	} else {
-		outStore = R.outStore
-		outVal = singleReturn(R.body)
-	}
-	var vVal ssa.Value
-	if lastStore != nil {
-		vVal = lastStore.Val
-	}
-	okOut := false
-	outDesc := "?"
-	if outStore != nil && vVal != nil && outVal != nil {
-		// the stored value: convert(v + load offset)
-		if bo, ok := stripConv(outVal).(*ssa.BinOp); ok && bo.Op == token.ADD {
-			x, y := stripConv(bo.X), stripConv(bo.Y)
-			if (x == vVal && puField(y) == "offset") || (y == vVal && puField(x) == "offset") {
-				okOut = true
-			}
-			outDesc = c05Describe(outVal, nil, 0)
-		}
-	}
-	r.Check(okOut && outStore != nil && main.EveryIteration(outStore.Block()), "C12.R2", "each output sample is the reduced input plus the offset field", p.Pos(fn.Pos()), outDesc, "the stored sample is `"+outDesc+"`, not (masked, shifted input) + offset: the output is no longer the input modulo a quantum")
-	// v = (raw & signMask) >> drop in both arms
 	atCaller := func(v ssa.Value) ssa.Value {
 		prm, ok := v.(*ssa.Parameter)
 		if !ok || prm.Parent() == fn {
@@ -316,8 +327,93 @@ func runC12(p *Prog, r *Report) {
 		}
 		return ArgForParam([]ssa.Instruction{site}, prm)
 	}
+	if R.body == fn {
+		Instrs(fn, func(in ssa.Instruction) {
+			if st, ok := in.(*ssa.Store); ok && main.Contains(st.Block()) {
+				if ia, ok := st.Addr.(*ssa.IndexAddr); ok && ia.Index == main.Idx {
+					outStore = st
+					outVal = st.Val
+				}
+			}
+		})
+	} else {
+		outStore = R.outStore
+		if R.outStore.Val == ssa.Value(R.call) {
+			outVal = singleReturn(R.body)
+		}
+	}
+	var vVal ssa.Value
+	if lastStore != nil {
+		vVal = lastStore.Val
+	}
+	okOut := false
+	outDesc := "?"
+	sumUnk := ""
+	if R.body != fn && outStore != nil && R.outStore.Val != ssa.Value(R.call) && vVal != nil {
+		// data[i] = conv(v + helper(v)): the helper hands back the offset to add
+		if bo, ok := stripConv(R.outStore.Val).(*ssa.BinOp); ok && bo.Op == token.ADD {
+			x, y := stripConv(bo.X), stripConv(bo.Y)
+			other := x
+			if x == ssa.Value(R.call) {
+				other = y
+			} else if y != ssa.Value(R.call) {
+				other = nil
+			}
+			outDesc = c05Describe(R.outStore.Val, nil, 0)
+			if other != nil && other == stripConv(atCaller(stripConv(vVal))) {
+				okOut = true
+				Instrs(R.body, func(in ssa.Instruction) {
+					ret, isRet := in.(*ssa.Return)
+					if !isRet || len(ret.Results) != 1 {
+						return
+					}
+					switch f := puField(stripConv(ret.Results[0])); f {
+					case "offset":
+					case "":
+						okOut = false
+						outDesc = "input + " + c05Describe(ret.Results[0], nil, 0)
+					default:
+						// the field that was just copied into the offset: equal to it
+						same := false
+						Instrs(R.body, func(y ssa.Instruction) {
+							st, ok := y.(*ssa.Store)
+							if !ok || puField(st.Addr) != "offset" || puField(stripConv(st.Val)) != f || !InstrDominates(st, ret) {
+								return
+							}
+							later := ReachAvoiding(R.body, st, func(z ssa.Instruction) bool { return z == ssa.Instruction(ret) }, func(z ssa.Instruction) bool {
+								s2, ok := z.(*ssa.Store)
+								return ok && s2 != st && (puField(s2.Addr) == "offset" || puField(s2.Addr) == f)
+							})
+							if len(later) == 0 {
+								same = true
+							}
+						})
+						if !same {
+							sumUnk = "the helper returns the field " + f + " at " + p.InstrPos(ret) + " as the amount to add; whether it equals the offset there is not decided"
+						}
+					}
+				})
+			}
+		}
+	}
+	if outStore != nil && vVal != nil && outVal != nil {
+		// the stored value: convert(v + load offset)
+		if bo, ok := stripConv(outVal).(*ssa.BinOp); ok && bo.Op == token.ADD {
+			x, y := stripConv(bo.X), stripConv(bo.Y)
+			if (x == vVal && puField(y) == "offset") || (y == vVal && puField(x) == "offset") {
+				okOut = true
+			}
+			outDesc = c05Describe(outVal, nil, 0)
+		}
+	}
+	if okOut && sumUnk != "" {
+		r.Unk("C12.R2", "each output sample is the reduced input plus the offset field", p.Pos(fn.Pos()), sumUnk)
+	} else {
+		r.Check(okOut && outStore != nil && main.EveryIteration(outStore.Block()), "C12.R2", "each output sample is the reduced input plus the offset field", p.Pos(fn.Pos()), outDesc, "the stored sample is `"+outDesc+"`, not (masked, shifted input) + offset: the output is no longer the input modulo a quantum")
+	}
+	// v = (raw & signMask) >> drop in both arms
 	shape := func(v ssa.Value) string {
-		v = stripConv(v)
+		v = stripConv(atCaller(stripConv(v)))
 		bo, ok := v.(*ssa.BinOp)
 		if !ok || bo.Op != token.SHR {
 			return "no shift"
@@ -491,18 +587,60 @@ func runC12(p *Prog, r *Report) {
 	limDesc := ""
 	var bias ssa.Value
 	if up != nil && lo != nil {
-		ub, ok1 := stripConv(up.Val).(*ssa.BinOp)
-		lb, ok2 := stripConv(lo.Val).(*ssa.BinOp)
-		if ok1 && ok2 && ub.Op == token.ADD && lb.Op == token.SUB && ub.X == lb.X && ub.Y == lb.Y {
-			bias = ub.X
-			// onePi = 1 << (fractionBits - lowBitsToDrop - 1)
+		upV, loV := stripConv(up.Val), stripConv(lo.Val)
+		// both limits handed back by one helper call: look at what it returns, and read its
+		// parameters as the constructor's arguments
+		var viaCall *ssa.Call
+		if e1, isE1 := upV.(*ssa.Extract); isE1 {
+			if e2, isE2 := loV.(*ssa.Extract); isE2 && e1.Tuple == e2.Tuple {
+				if call, isCall := e1.Tuple.(*ssa.Call); isCall && call.Call.StaticCallee() != nil && isModuleFn(call.Call.StaticCallee()) {
+					if ret := singleReturnInstr(call.Call.StaticCallee()); ret != nil && e1.Index < len(ret.Results) && e2.Index < len(ret.Results) {
+						viaCall = call
+						upV, loV = stripConv(ret.Results[e1.Index]), stripConv(ret.Results[e2.Index])
+					}
+				}
+			}
+		}
+		toCtor := func(v ssa.Value) ssa.Value {
+			if viaCall == nil {
+				return v
+			}
+			return ArgForParam([]ssa.Instruction{viaCall}, stripConv(v))
+		}
+		ub, ok1 := upV.(*ssa.BinOp)
+		lb, ok2 := loV.(*ssa.BinOp)
+		sameOperand := func(a, b ssa.Value) bool { return a == b || stripConv(a) == stripConv(b) }
+		if ok1 && ok2 && ub.Op == token.ADD && lb.Op == token.SUB && sameOperand(ub.X, lb.X) && sameOperand(ub.Y, lb.Y) {
+			bias = toCtor(ub.X)
+			// onePi = 1 << (fractionBits - lowBitsToDrop - 1), or half of the quantum
 			d := c05Describe(ub.Y, nil, 0)
 			limDesc = "bias ± " + d
 			okLim = strings.Contains(d, "<<")
+			if hb, isB := stripConv(ub.Y).(*ssa.BinOp); isB && !okLim {
+				k, isC := constInt(hb.Y)
+				if isC && ((hb.Op == token.QUO && k == 2) || (hb.Op == token.SHR && k == 1)) {
+					whole := toCtor(hb.X)
+					wd := c05Describe(whole, nil, 0)
+					limDesc = "bias ± half of " + wd
+					okLim = puField(stripConv(whole)) == "twoPi" || strings.Contains(wd, "<<")
+				}
+			}
 		}
 	}
 	r.Check(okLim, "C12.R3", "the step limits are one bias value plus and minus half a quantum", p.Pos(ctor.Pos()), limDesc, "upper and lower limits are not built as the same bias plus/minus the same half quantum")
 	if bias != nil {
+		// the bias is brought into one quantum: bias = (...) % Q with Q the quantum the offset
+		// moves by (the twoPi field, or the very value stored into it)
+		if rem, isRem := stripConv(bias).(*ssa.BinOp); isRem && rem.Op == token.REM {
+			q := stripConv(rem.Y)
+			okQ := puField(q) == "twoPi"
+			for _, st := range StoresTo(ctor, puT, "twoPi") {
+				if stripConv(st.Val) == q {
+					okQ = true
+				}
+			}
+			r.Check(okQ, "C12.R3", "the bias is reduced modulo the quantum the offset moves by", p.InstrPos(rem), "modulus is the twoPi value", "the bias of the step window is reduced modulo `"+c05Describe(rem.Y, nil, 0)+"`, which is not the quantum kept in twoPi (the units after the low bits are dropped): a bias level of a quantum or more is not brought into the window, and every step is then taken for a wrap")
+		}
 		deps := paramDeps(ctor, bias)
 		var ds []string
 		for d := range deps {
@@ -813,4 +951,204 @@ func c12R5(p *Prog, r *Report) {
 				why+": for an unsorted list the search misses entries, so listed channels get the wrong per-channel setting (e.g. are not inverted) and their unwrapped signal differs from the input by more than whole flux quanta")
 		})
 	}
+}
+
+// ---- R6: the inversion flag of a channel is looked up by channel number ---------------------------
+
+// c12R6: the client lists the channels to invert by channel NUMBER; a group of channels starts at
+// its own first channel number.  Where the unwrappers of a group are built, the inversion flag of
+// the i-th channel of the group must therefore be looked up with a key made of i and the group's
+// first channel (or in a table whose keys were shifted by it).  Decided on the backward data slice
+// of the flag: it must contain a read of the first-channel field; a slice that leaves the function
+// through memory or a module call is not decided.
+func c12R6(p *Prog, r *Report) {
+	ctor := p.Func("", "", "NewPhaseUnwrapper")
+	if ctor == nil {
+		return
+	}
+	inv := -1
+	for k, prm := range ctor.Params {
+		if b, ok := prm.Type().Underlying().(*types.Basic); ok && b.Kind() == types.Bool && strings.Contains(strings.ToLower(prm.Name()), "inver") {
+			inv = k
+		}
+	}
+	if inv < 0 {
+		r.Unk("C12.R6", "inversion parameter of NewPhaseUnwrapper", p.Pos(ctor.Pos()), "no bool parameter named invert*")
+		return
+	}
+	isFirst := func(v ssa.Value) bool {
+		switch x := v.(type) {
+		case *ssa.Field:
+			if st, ok := x.X.Type().Underlying().(*types.Struct); ok {
+				return st.Field(x.Field).Name() == "Firstchan"
+			}
+		case *ssa.FieldAddr:
+			if st := derefStruct(x.X.Type()); st != nil {
+				return st.Field(x.Field).Name() == "Firstchan"
+			}
+		}
+		return false
+	}
+	for _, fn := range p.LibFuncs() {
+		Instrs(fn, func(in ssa.Instruction) {
+			call, ok := in.(*ssa.Call)
+			if !ok || call.Call.StaticCallee() != ctor || inv >= len(call.Call.Args) {
+				return
+			}
+			b := call.Block()
+			inLoop := false
+			for _, sc := range b.Succs {
+				if sc == b || BlockReaches(sc, b) {
+					inLoop = true
+				}
+			}
+			if !inLoop {
+				return
+			}
+			if _, isC := call.Call.Args[inv].(*ssa.Const); isC {
+				return // inversion not in use at this site
+			}
+			r.Fn(FuncName(fn))
+			found, opaque := false, ""
+			seen := map[ssa.Value]bool{}
+			var walk func(v ssa.Value, d int)
+			walk = func(v ssa.Value, d int) {
+				if v == nil || seen[v] || d > 30 {
+					return
+				}
+				seen[v] = true
+				if isFirst(v) {
+					found = true
+					return
+				}
+				switch x := v.(type) {
+				case *ssa.Const, *ssa.Parameter, *ssa.FreeVar, *ssa.Global, *ssa.Function, *ssa.Builtin:
+					return
+				case *ssa.Phi:
+					allConst := true
+					for _, e := range x.Edges {
+						walk(e, d+1)
+						if _, isC := e.(*ssa.Const); !isC {
+							if _, isPhi := e.(*ssa.Phi); !isPhi {
+								allConst = false
+							}
+						}
+					}
+					if allConst {
+						// a flag set to constants under conditions: the conditions carry the key
+						for _, pred := range x.Block().Preds {
+							for _, c := range controllingIfs(pred) {
+								walk(c.If.Cond, d+1)
+							}
+							if iff, ok := pred.Instrs[len(pred.Instrs)-1].(*ssa.If); ok {
+								walk(iff.Cond, d+1)
+							}
+						}
+					}
+				case *ssa.Lookup:
+					walk(x.Index, d+1)
+					// a table: the keys it was filled with
+					if mm, ok := x.X.(*ssa.MakeMap); ok {
+						for _, ref := range *mm.Referrers() {
+							if mu, ok := ref.(*ssa.MapUpdate); ok {
+								walk(mu.Key, d+1)
+							}
+						}
+					} else {
+						opaque = "a table that was not built in this function"
+					}
+				case *ssa.Call:
+					g := x.Call.StaticCallee()
+					if mc, ok := x.Call.Value.(*ssa.MakeClosure); ok {
+						g = mc.Fn.(*ssa.Function)
+					}
+					switch {
+					case x.Call.IsInvoke() || g == nil:
+						if _, isB := x.Call.Value.(*ssa.Builtin); !isB {
+							opaque = "a call that is not resolved at " + p.InstrPos(x)
+						}
+					case g.Parent() == fn:
+						Instrs(g, func(y ssa.Instruction) {
+							if v2, ok := y.(ssa.Value); ok && isFirst(v2) {
+								found = true
+							}
+						})
+					case isModuleFn(g):
+						opaque = "the result of " + FuncName(g)
+					}
+					for _, a := range x.Call.Args {
+						walk(a, d+1)
+					}
+				case *ssa.UnOp:
+					if x.Op == token.MUL {
+						if _, isFA := x.X.(*ssa.FieldAddr); isFA && isFirst(x.X) {
+							found = true
+							return
+						}
+						if al, isAl := x.X.(*ssa.Alloc); isAl {
+							for _, ref := range *al.Referrers() {
+								if st, ok := ref.(*ssa.Store); ok && st.Addr == ssa.Value(al) {
+									walk(st.Val, d+1)
+								}
+							}
+							return
+						}
+						if ia, isIA := x.X.(*ssa.IndexAddr); isIA {
+							// an element of a list handed to this function (the list of channel numbers)
+							base := ia.X
+							if ld, ok := base.(*ssa.UnOp); ok && ld.Op == token.MUL {
+								if fa, ok := ld.X.(*ssa.FieldAddr); ok {
+									base = fa.X
+								}
+							}
+							if f, ok := base.(*ssa.Field); ok {
+								base = f.X
+							}
+							switch base.(type) {
+							case *ssa.Parameter, *ssa.Alloc, *ssa.FreeVar:
+								return
+							}
+						}
+						opaque = "a value read from memory at " + p.InstrPos(x)
+						return
+					}
+					walk(x.X, d+1)
+				default:
+					if y, ok := v.(ssa.Instruction); ok {
+						for _, op := range y.Operands(nil) {
+							if *op != nil {
+								walk(*op, d+1)
+							}
+						}
+					}
+				}
+			}
+			walk(call.Call.Args[inv], 0)
+			key := "inversion flag of each channel built in " + FuncName(fn) + " is looked up by channel number"
+			switch {
+			case found:
+				r.OK("C12.R6", key, p.InstrPos(call), "the flag's key is made with the group's first channel number")
+			case opaque != "":
+				r.Unk("C12.R6", key, p.InstrPos(call), "the flag comes from "+opaque+": not decided how it is keyed")
+			default:
+				r.Bad("C12.R6", key, p.InstrPos(call), "nothing in the computation of the flag reads the group's first channel number: the list of channels to invert holds channel numbers, so for a group that does not start at channel 0 the listed channels are not inverted and others are (their output is the complement of the input, not the input plus whole quanta)")
+			}
+		})
+	}
+}
+
+// singleReturnInstr: the only return instruction of fn, or nil.
+func singleReturnInstr(fn *ssa.Function) *ssa.Return {
+	var out *ssa.Return
+	n := 0
+	Instrs(fn, func(in ssa.Instruction) {
+		if ret, ok := in.(*ssa.Return); ok {
+			out = ret
+			n++
+		}
+	})
+	if n != 1 {
+		return nil
+	}
+	return out
 }
